@@ -3483,7 +3483,20 @@ class FParser2IR(GenericVisitor):
     #
 
     def visit_Save_Stmt(self, o, **kwargs):
-        return ir.SaveStmt(**kwargs)
+        """
+        A ``SAVE`` statement
+
+        :class:`fparser.two.Fortran2003.Save_Stmt` has two children: the keyword
+        and the (optional) list of saved entities, which are variable names or
+        common block names in slashes.
+        """
+        if o.items[1] is None:
+            return ir.SaveStmt(**kwargs)
+        entities = tuple(
+            self.visit(e, **kwargs) if isinstance(e, Fortran2003.Name) else sym.IntrinsicLiteral(value=e.tostr())
+            for e in o.items[1].items
+        )
+        return ir.SaveStmt(text=entities, **kwargs)
 
     def visit_Return_Stmt(self, o, **kwargs):
         return ir.ReturnStmt(**kwargs)
